@@ -179,6 +179,14 @@ Truthful(p) ==
                     \E i \in 1..Len(PreLookup(o.key)[1].sri) : r.v = PreLookup(o.key)[1].sri[i].d
            [] o.op = "remove" -> Lookup(o.key) = <<>>
            [] o.op = "metadata" -> r.v = PreLookup(o.key)
+           [] o.op = "list" ->
+                /\ Range(r.v) \subseteq ListAllB(pre.buckets)
+                /\ (r.errs = 0) => (Range(r.v) = ListAllB(pre.buckets) /\ pre.hasIndex)
+           [] o.op = "extract" ->
+                LET t == IF Has(o, "key") THEN PreLookup(o.key)[1].sri ELSE o.sri IN
+                /\ o.to \in DOMAIN ext
+                /\ \E i \in 1..Len(t) : ext[o.to] = t[i].d
+           [] o.op = "remove_hash" -> Addr(o.sri) \notin DOMAIN store
            [] OTHER -> TRUE
 
 OthersUntouched ==
@@ -201,7 +209,8 @@ TInit == /\ Init /\ l = 2 /\ pre = [buckets |-> EmptyFn] /\ ops = EmptyFn /\ res
 
 TBegin == /\ l <= N /\ Ev.ev = "begin"
           /\ Adopt(Ev.snap)
-          /\ pre' = [buckets |-> ObsBuckets(Ev.snap), store |-> ObsStore(Ev.snap)]
+          /\ pre' = [buckets |-> ObsBuckets(Ev.snap), store |-> ObsStore(Ev.snap),
+                     hasIndex |-> Ev.snap.hasIndex]
           /\ ops' = EmptyFn /\ results' = EmptyFn /\ crashed' = FALSE /\ faults' = 0
           /\ l' = l + 1
 
